@@ -205,7 +205,9 @@ RunAspects(prev, x, ev) ==
      \cup (IF "con" \in DOMAIN ev
              /\ (ev.con # [i \in 1 .. Len(SelectSeq(ev.pio, LAMBDA e : e[1] = 1 /\ e[2] = 0)) |->
                              SelectSeq(ev.pio, LAMBDA e : e[1] = 1 /\ e[2] = 0)[i][3]]
-                 \/ ev.warn # Len(SelectSeq(ev.pio, LAMBDA e : e[1] = 0 \/ e[2] # 0)))
+                 \* port reads and writes to other ports "only produce a warning": some warning when there was
+                 \* such traffic, none otherwise (how many lines are logged is not pinned)
+                 \/ (ev.warn > 0) # (Len(SelectSeq(ev.pio, LAMBDA e : e[1] = 0 \/ e[2] # 0)) > 0))
            THEN {"console"} ELSE {})
      \cup (IF <<o.hc[1] - prev.hc[1], o.hc[2] - prev.hc[2]>> # ev.hc THEN {"hc"} ELSE {})
      \cup (IF o.pend # PendOf(ev.pend) THEN {"pend"} ELSE {})
